@@ -16,6 +16,14 @@ func faultKindsFor(op string) []string {
 	return []string{"err"}
 }
 
+// errFlavours: "a returned error" comes in several values (cancelled / timed-out context, a driver's no-rows error, a
+// broken connection). Single faults are enumerated with every flavour, the second fault of a pair with the plain one.
+var errFlavours = []string{"err_canceled", "err_deadline", "err_notfound", "err_eof"}
+
+func firstFaultKindsFor(op string) []string {
+	return append(faultKindsFor(op), errFlavours...)
+}
+
 // occurrence renders "Op#n" for the i-th call of a task.
 func occurrence(t *Task, idx int) string {
 	n := 0
@@ -55,6 +63,13 @@ func oracleC10(r *Result) {
 			cls = "meta_alg_unusable"
 			w.fire("alg_unusable")
 		default:
+			if t.Panic != "" && faultDuring(r, t) {
+				// the request itself met no failing call, yet it crashed while another request's storage call failed
+				r.violate("C10 bystander-panic", "C10:bystander:"+t.Msg.Kind+":panic:"+t.PanicFunc,
+					"a storage failure met by one request ends in an error reply for that request and leaves concurrent requests alone",
+					"panic: "+t.Panic+"\n"+abbreviate(t.PanicStack, 1500), t.ID)
+				continue
+			}
 			if t.Msg.Bystander && r.Plan.BystanderSig != "" && t.Panic == "" {
 				w.probe("bystander_during_fault")
 				if got := replySummary(t); got != r.Plan.BystanderSig {
@@ -104,6 +119,22 @@ func oracleC10(r *Result) {
 				"an error reply carries no subject, attribute value, signature or user data", fmt.Sprintf("leaks=%v %s", lk, replySummary(t)), t.ID)
 		}
 	}
+}
+
+// faultDuring: a failure-type storage fault was injected into another task while t was in flight.
+func faultDuring(r *Result, t *Task) bool {
+	for _, o := range r.Tasks {
+		if o == t {
+			continue
+		}
+		for i := range o.Calls {
+			c := &o.Calls[i]
+			if c.Fault != "" && c.Fault != "abandoned" && c.Seq > t.SeqInvoke && (t.SeqReturn == 0 || c.Seq < t.SeqReturn) {
+				return true
+			}
+		}
+	}
+	return false
 }
 
 // reachedSigning: the task got as far as fetching the key it signs with (callback: after user info; attrq: second key read).
@@ -223,17 +254,22 @@ func c10Bystander(kind int) *MsgSpec {
 type c10Fault struct {
 	idx  int
 	kind string
+	op   string // operation of the call the fault hits (used to align a bystander with it)
 }
 
 // c10Plan: main task (id 0) gets the listed faults at the listed call indices; the bystander (id 1) moves one step
 // right after each fault and finishes last.
 func c10Plan(variant int, wl *c10Workload, by int, faults []c10Fault, seed uint64, worker int) *Plan {
-	return c10PlanWarm(variant, wl, by, 0, faults, seed, worker)
+	return c10PlanWarm(variant, wl, by, 0, 0, faults, seed, worker)
 }
 
 // c10PlanWarm: with warm != 0 a request of another session is served to completion on the same provider first, so that
 // whatever the library remembers from an earlier success is in place when the fault strikes.
-func c10PlanWarm(variant int, wl *c10Workload, by int, warm int, faults []c10Fault, seed uint64, worker int) *Plan {
+// align (with a bystander): 1 = before a fault strikes, the bystander is run up to its own call of the very operation the
+// fault hits, so that both requests are inside that operation at once (a library that lets concurrent requests share one
+// lookup makes the bystander wait for the doomed call); 2 = the bystander additionally completes that call while the main
+// request is still inside its own.
+func c10PlanWarm(variant int, wl *c10Workload, by int, warm int, align int, faults []c10Fault, seed uint64, worker int) *Plan {
 	p := &Plan{Format: 1, Property: "C10", Mode: "serial", Family: "enumerate:" + wl.name, Seed: seed, Worker: worker}
 	p.World = c10BaseWorld(variant)
 	p.World.Presessions = append([]Preseed(nil), wl.pre...)
@@ -263,6 +299,12 @@ func c10PlanWarm(variant int, wl *c10Workload, by int, warm int, faults []c10Fau
 		for ; at < f.idx; at++ {
 			p.Steps = append(p.Steps, Step{K: "resume", ByID: true, Pick: first})
 		}
+		if by != 0 && align > 0 && f.op != "" {
+			p.Steps = append(p.Steps, Step{K: "until", Pick: first + 1, Op: f.op})
+			if align == 2 {
+				p.Steps = append(p.Steps, Step{K: "resume", ByID: true, Pick: first + 1})
+			}
+		}
 		p.Steps = append(p.Steps, Step{K: "resume", ByID: true, Pick: first, Fault: f.kind})
 		at++
 		if by != 0 {
@@ -284,10 +326,14 @@ func enumerateC10(t *testing.T, c *collector, workers int) bool {
 	scen := 0
 	for variant := 0; variant < 4; variant++ {
 		for wi := range wls {
-			for byw := 0; byw < 5; byw++ {
-				// 0..2: bystander settings without warm-up; 3, 4: warm-up by a callback / a metadata request, no bystander
-				by, warm := byw, 0
-				if byw >= 3 {
+			for byw := 0; byw < 9; byw++ {
+				// 0..2: bystander settings without warm-up; 3, 4: warm-up by a callback / a metadata request, no bystander;
+				// 5..8: callback / metadata bystander aligned with the faulted call (see c10PlanWarm)
+				by, warm, align := byw, 0, 0
+				switch {
+				case byw >= 5:
+					by, align = 1+(byw-5)%2, 1+(byw-5)/2
+				case byw >= 3:
 					by, warm = 0, byw-2
 				}
 				scen++
@@ -299,7 +345,7 @@ func enumerateC10(t *testing.T, c *collector, workers int) bool {
 				if warm != 0 {
 					mainIdx = 1
 				}
-				base := c10PlanWarm(variant, wl, by, warm, nil, *fSeed, *fWorker)
+				base := c10PlanWarm(variant, wl, by, warm, align, nil, *fSeed, *fWorker)
 				bres := Run(t, base)
 				if bres.HarnessErr != "" {
 					c.out.HarnessErr = bres.HarnessErr
@@ -323,8 +369,8 @@ func enumerateC10(t *testing.T, c *collector, workers int) bool {
 				}
 				trace := bres.Tasks[mainIdx].Calls
 				for i := range trace {
-					for _, k := range faultKindsFor(trace[i].Op) {
-						p1 := c10PlanWarm(variant, wl, by, warm, []c10Fault{{i, k}}, *fSeed, *fWorker)
+					for _, k := range firstFaultKindsFor(trace[i].Op) {
+						p1 := c10PlanWarm(variant, wl, by, warm, align, []c10Fault{{i, k, trace[i].Op}}, *fSeed, *fWorker)
 						p1.BystanderSig = bsig
 						r1 := Run(t, p1)
 						if r1.HarnessErr != "" {
@@ -344,7 +390,7 @@ func enumerateC10(t *testing.T, c *collector, workers int) bool {
 						t1 := r1.Tasks[mainIdx].Calls
 						for j := i + 1; j < len(t1); j++ {
 							for _, k2 := range faultKindsFor(t1[j].Op) {
-								p2 := c10PlanWarm(variant, wl, by, warm, []c10Fault{{i, k}, {j, k2}}, *fSeed, *fWorker)
+								p2 := c10PlanWarm(variant, wl, by, warm, align, []c10Fault{{i, k, trace[i].Op}, {j, k2, t1[j].Op}}, *fSeed, *fWorker)
 								p2.BystanderSig = bsig
 								r2 := Run(t, p2)
 								if r2.HarnessErr != "" {
